@@ -7,7 +7,9 @@
 (* Spec state: the abstract description (model behaviours), the summary of *)
 (* the current topology, the exported text per flag word, the texts that   *)
 (* were reloaded.  Every logged field is bound; crashes and hangs have no  *)
-(* action.                                                                 *)
+(* action.  The relations are written `R = TRUE' so that TLC evaluates     *)
+(* them as plain formulas (an existential inside an action would otherwise *)
+(* be enumerated as a choice of successor states).                         *)
 (***************************************************************************)
 EXTENDS Synthetic, Json, IOUtils
 
@@ -32,9 +34,9 @@ TReset == /\ IsEvent("Reset")
 \* logged abstract description, which is well formed; valid descriptions of moderate depth must be accepted
 TSetModel == /\ IsEvent("set") /\ E.model = 1
              /\ st = "init"
-             /\ DescOK(E.d)
+             /\ DescOK(E.d) = TRUE
              /\ E.text = Render(E.d) /\ E.len = Len(E.text)
-             /\ SetRel(E.d, E.ret, E.errno)
+             /\ SetRel(E.d, E.ret, E.errno) = TRUE
              /\ st' = IF E.ret = 0 THEN "set" ELSE "refused"
              /\ desc' = [ok |-> TRUE, d |-> E.d]
              /\ UNCHANGED <<cur, exp, rel>>
@@ -56,9 +58,9 @@ TLoad == /\ IsEvent("load")
             THEN /\ E.sum.depth >= 2
                  /\ E.full \in {0, 1}
                  /\ E.slot = 0 /\ Len(E.topos) = 1
-                 /\ E.full = 1 => (E.topos[1].n > 0 /\ WellFormed(E.topos[1]) /\ SumOf(E.topos[1]) = E.sum)
+                 /\ E.full = 1 => (E.topos[1].n > 0 /\ WellFormed(E.topos[1]) = TRUE /\ SumOf(E.topos[1]) = E.sum)
                  /\ E.full = 0 => E.topos[1].n = 0
-                 /\ desc.ok => BuildRel(desc.d, E.sum)
+                 /\ (desc.ok => BuildRel(desc.d, E.sum)) = TRUE
                  /\ st' = "loaded" /\ cur' = E.sum
             ELSE /\ E.sum.depth = 0 /\ E.topos[1].n = 0
                  /\ st' = "refused" /\ cur' = NoSum
@@ -79,11 +81,11 @@ TExport == /\ IsEvent("export")
            /\ E.flags >= 0 /\ E.flags \notin {exp[k].flags : k \in DOMAIN exp}
            /\ E.all \in {0, 1} /\ E.reload \in {0, 1}
            /\ E.cap > E.rbig /\ E.glo = 0 /\ E.ghi = 0
-           /\ ExportRetRel(cur, E.flags, E.rbig)
-           /\ E.rbig >= 0 => (E.rbig = Len(E.full) /\ (KnownFlags(E.flags) => FlagTextRel(E.flags, E.full)))
+           /\ ExportRetRel(cur, E.flags, E.rbig) = TRUE
+           /\ (E.rbig >= 0 => (E.rbig = Len(E.full) /\ (KnownFlags(E.flags) => FlagTextRel(E.flags, E.full)))) = TRUE
            /\ E.rbig < 0 => E.full = ""
            /\ Len(E.calls) >= 2 /\ E.calls[1][1] = 0 /\ E.calls[Len(E.calls)][1] = (IF E.rbig > 0 THEN E.rbig ELSE 0) + 1
-           /\ \A k \in DOMAIN E.calls : SnprintfRel(E.full, E.rbig, E.calls[k])
+           /\ (\A k \in DOMAIN E.calls : SnprintfRel(E.full, E.rbig, E.calls[k])) = TRUE
            /\ exp' = Append(exp, [flags |-> E.flags, ok |-> E.rbig >= 0, text |-> E.full, reload |-> E.reload])
            /\ UNCHANGED <<st, desc, cur, rel>>
 
@@ -95,7 +97,7 @@ TReload == /\ IsEvent("reload")
            /\ {E.flags[k] : k \in DOMAIN E.flags} = {exp[k].flags : k \in {x \in DOMAIN exp : exp[x].ok /\ exp[x].reload = 1 /\ exp[x].text = E.text}}
            /\ E.flags # <<>>
            /\ {E.re[k][1] : k \in DOMAIN E.re} = {E.flags[k] : k \in DOMAIN E.flags} \/ (E.re = <<>> /\ (E.set # 0 \/ E.load # 0))
-           /\ \A k \in DOMAIN E.flags : KnownFlags(E.flags[k]) => RoundTripRel(cur, E.flags[k], E)
+           /\ (\A k \in DOMAIN E.flags : KnownFlags(E.flags[k]) => RoundTripRel(cur, E.flags[k], E)) = TRUE
            /\ rel' = rel \cup {E.text}
            /\ UNCHANGED <<st, desc, cur, exp>>
 
